@@ -59,5 +59,23 @@ func directed(startIdx int) []*Case {
 				Utxos: []Utxo{{k, 0, coin}}, Dests: []Dest{{Kind: "own:" + k, Key: 0, Amount: coin / 4}}, Raw: []string{"unsigned", "signed"}, Chain: true})
 		}
 	}
+	// minimal balance folders of the record-shapes family: one unspent output of a
+	// big payout transaction at an output index on each side of a digit-count boundary
+	for i, vo := range []int{7, 99, 100, 999, 1000, 2345, 9999, 10000} {
+		for j, sh := range []string{"node", "bare", "wallet"} {
+			k := kinds[(i+j)%len(kinds)]
+			add(&Case{Family: "directed-records", Type: 3, AType: atypeOfKind[k], Layout: "payout", Vouts: []int{vo}, RecShape: sh,
+				Utxos: []Utxo{{k, 0, coin}}, Dests: []Dest{{Kind: "f-p2pkh", Key: 1, Amount: coin / 2}}, Chain: j == 0})
+		}
+	}
+	// a co-signed transaction: somebody else's input of every kind, validly signed,
+	// offered with -raw under every atype
+	for i, at := range []string{"p2kh", "segwit", "bech32", "tap"} {
+		for j, fk := range kinds {
+			k := kindOfAtype[at]
+			add(&Case{Family: "directed-cosigner", Type: 3 + (i+j)%2, AType: at, Testnet: (i+j)%3 == 0, ForeignFirst: true, ForeignKind: fk,
+				Utxos: []Utxo{{k, 1, coin}}, Dests: []Dest{{Kind: "f-p2wpkh", Key: 1, Amount: coin / 2}}, Raw: []string{"with-foreign"}})
+		}
+	}
 	return out
 }
